@@ -48,6 +48,18 @@ pub struct BigPiece {
 #[derive(Clone, Debug, Serialize, Deserialize, PartialEq, Eq, Hash)]
 pub struct BigSet {
     pub pieces: Vec<BigPiece>,
+    /// 0 (default): union of the pieces; 1: one single (state, colour) point picked inside the first
+    /// piece; 2: the unit set minus such a point; 3: the unit set minus the union of the pieces.
+    /// Modes 1 and 2 reach what random sub-spaces never do: sets that differ from empty / everything
+    /// by a single element (fixed-point iterations that move by one element per step).
+    #[serde(default)]
+    pub mode: u8,
+}
+
+impl BigSet {
+    pub fn is_point_like(&self) -> bool {
+        self.mode == 1 || self.mode == 2
+    }
 }
 
 pub fn big_set() -> BoxedStrategy<BigSet> {
@@ -56,13 +68,33 @@ pub fn big_set() -> BoxedStrategy<BigSet> {
         prop::collection::vec((any::<u16>(), any::<bool>()), 0..=3),
     )
         .prop_map(|(vars, params)| BigPiece { vars, params });
-    prop::collection::vec(piece, 0..=3)
-        .prop_map(|pieces| BigSet { pieces })
+    (
+        prop::collection::vec(piece, 0..=3),
+        prop_oneof![6 => Just(0u8), 1 => Just(1u8), 2 => Just(2u8), 1 => Just(3u8)],
+    )
+        .prop_map(|(pieces, mode)| BigSet { pieces, mode })
         .boxed()
 }
 
 /// Build the symbolic set (over state and parameter variables only), clipped to the unit set.
 pub fn build_big_set(graph: &SymbolicAsyncGraph, set: &BigSet) -> GraphColoredVertices {
+    let unit = graph.unit_colored_vertices();
+    match set.mode {
+        1 | 2 => {
+            let first = BigSet { pieces: set.pieces.iter().take(1).cloned().collect(), mode: 0 };
+            let mut region = if first.pieces.is_empty() { unit.clone() } else { build_union(graph, &first) };
+            if region.is_empty() {
+                region = unit.clone();
+            }
+            let point = region.pick_singleton();
+            if set.mode == 1 { point } else { unit.minus(&point) }
+        }
+        3 => unit.minus(&build_union(graph, set)),
+        _ => build_union(graph, set),
+    }
+}
+
+fn build_union(graph: &SymbolicAsyncGraph, set: &BigSet) -> GraphColoredVertices {
     let ctx = graph.symbolic_context();
     let vars = ctx.bdd_variable_set();
     let n = ctx.num_state_variables();
@@ -83,4 +115,63 @@ pub fn build_big_set(graph: &SymbolicAsyncGraph, set: &BigSet) -> GraphColoredVe
         bdd = bdd.or(&cube);
     }
     GraphColoredVertices::new(bdd, ctx).intersect(graph.unit_colored_vertices())
+}
+
+
+// ---------------------------------------------------------------------------------------------
+// formulae that are affordable on benchmark-size models
+
+use crate::ast::*;
+use crate::gen::{FCfg, FEnv, RawF};
+
+/// Map the operators whose evaluation is a classical fixed-point iteration over EX (EG, AF, AU, EW:
+/// minutes on the larger models) to saturation-based ones; EX / AX stay.
+pub fn cheap_operators(f: &F) -> F {
+    match f {
+        F::Un(op, a) => {
+            let op = match op {
+                UnOp::AF => UnOp::EF,
+                UnOp::EG => UnOp::AG,
+                o => *o,
+            };
+            F::Un(op, Box::new(cheap_operators(a)))
+        }
+        F::Bin(op, a, b) => {
+            let op = match op {
+                BinOp::AU => BinOp::EU,
+                BinOp::EW => BinOp::AW,
+                o => *o,
+            };
+            F::Bin(op, Box::new(cheap_operators(a)), Box::new(cheap_operators(b)))
+        }
+        F::Hyb(op, v, d, a) => F::Hyb(*op, v.clone(), d.clone(), Box::new(cheap_operators(a))),
+        other => other.clone(),
+    }
+}
+
+/// A closed plain formula over the model's variables with at most one state variable.
+pub fn bundled_formula(raw: &RawF, bn: &BooleanNetwork) -> F {
+    let props: Vec<String> = bn.variables().map(|v| bn.get_variable_name(v).clone()).collect();
+    let env = FEnv {
+        props: &props,
+        labels: &[],
+        cfg: FCfg { max_quant_depth: 1, ..FCfg::PLAIN },
+        binders: &crate::gen::BINDERS,
+    };
+    cheap_operators(&crate::gen::resolve_f(raw, &env))
+}
+
+/// Deterministic stream of values of a strategy (for the bundled-model stages, which are not run
+/// through proptest's runner because one case is expensive and shrinking would take hours).
+pub fn sample_stream<S: Strategy>(strategy: &S, seed: u64, count: usize) -> Vec<S::Value> {
+    use proptest::strategy::ValueTree;
+    use proptest::test_runner::{Config, RngSeed, TestRunner};
+    let mut runner = TestRunner::new(Config {
+        rng_seed: RngSeed::Fixed(seed),
+        failure_persistence: None,
+        ..Config::default()
+    });
+    (0..count)
+        .map(|_| strategy.new_tree(&mut runner).expect("value").current())
+        .collect()
 }
